@@ -475,3 +475,22 @@ def retype_sibling(rng, obj):
 
     walk(out)
     return out
+
+
+def add_shared_parity(rng, cd, n_gates=2):
+    """Append wide parity gates (3-5 inputs) that share at least two operands with each other."""
+    cd = {"name": cd["name"], "nodes": [list(x) for x in cd["nodes"]], "edges": [list(e) for e in cd["edges"]], "bbs": dict(cd["bbs"])}
+    srcs = [n for n, t, _ in cd["nodes"] if t in ALL_GATES + ["input"]]
+    if len(srcs) < 3:
+        return cd
+    shared = rng.sample(srcs, min(len(srcs), rng.randint(2, 3)))
+    for i in range(n_gates):
+        name = f"px{i}"
+        if any(x[0] == name for x in cd["nodes"]):
+            continue
+        extra = [x for x in srcs if x not in shared]
+        ops = shared + rng.sample(extra, min(len(extra), rng.randint(1, 2)))
+        rng.shuffle(ops)
+        cd["nodes"].append([name, rng.choice(["xor", "xnor"]), True])
+        cd["edges"] += [[o, name] for o in ops]
+    return cd
